@@ -198,24 +198,32 @@ def xproc_items(specs, protos):
     from labtech.types import ResultMeta
     items = []
     for s in specs:
-        t = pg.build(s)
-        inside = pr.tasks_inside(t)
-        for x in inside:
-            hash(x)
-            {x: 1}
-            x.set_context({'big': 'context'})
-            x._set_results_map({'some': 'map'})
-            x._set_result_meta(ResultMeta(start=None, duration=None))
-        items.append(dict(spec=s, key=t.cache_key, deps=[pg.show(d) for d in get_direct_dependencies(t)],
-                          blobs=[(p, pickle.dumps(t, protocol=p)) for p in protos]))
+        try:
+            t = pg.build(s)
+            inside = pr.tasks_inside(t)
+            for x in inside:
+                hash(x)
+                {x: 1}
+                x.set_context({'big': 'context'})
+                x._set_results_map({'some': 'map'})
+                x._set_result_meta(ResultMeta(start=None, duration=None))
+            items.append(dict(spec=s, key=t.cache_key, deps=[pg.show(d) for d in get_direct_dependencies(t)],
+                              blobs=[(p, pickle.dumps(t, protocol=p)) for p in protos]))
+        except Exception as e:
+            # the harness must not crash on what the code under test does: an accepted constructor call whose task
+            # cannot be hashed / searched for dependencies / pickled is a finding about the code, not about the harness
+            items.append(dict(spec=s, error=f'{type(e).__name__}: {e}'[:200]))
     return items
 
 
 def xproc_round_trip(specs, protos, hashseeds):
     """returns (violations, infra_error)"""
     items = xproc_items(specs, protos)
+    viol = [dict(what='hashing / dependency search / pickling of an accepted task raised ' + it['error'],
+                 replay=dict(kind='xproc', spec=it['spec'], hashseed=hashseeds[0])) for it in items if 'error' in it]
+    specs = [it['spec'] for it in items if 'error' not in it]
+    items = [it for it in items if 'error' not in it]
     hs = [pr.start_unpickle_worker(items, h) for h in hashseeds]
-    viol = []
     for h, seed in zip(hs, hashseeds):
         try:
             res = pr.finish_worker(h)
